@@ -31,9 +31,19 @@ Theorem C12_normal_endings : forall g,
     | ExitNone => FResult PNone
     | ExitInt n => if (n =? 0)%Z then FResult PNone else FError (PSysExit n)
     | ExitOther => FError PSysExitOther
+    | RaiseUnsendable | ReturnUnsendable => FError (POSErr (-1))
+    | HardExit n => if (- n =? 15)%Z then FResult PNone else FError (POSErr (- n))
     end.
 Proof. exact normal_endings. Qed.
 Print Assumptions C12_normal_endings.
+
+(* a child that ends by itself without having delivered its outcome - it raised or returned something that cannot be
+   pickled, or called os._exit - is reported as an error through the future, never as a normal return of None *)
+Theorem C12_silent_child_failure_is_error : forall g,
+  kill g = NoKill -> sendable (how g) = false -> (forall n, how g = HardExit n -> n <> (-15)%Z) ->
+  exists c, parent_future g = FError (POSErr c).
+Proof. exact silent_child_failure_is_error. Qed.
+Print Assumptions C12_silent_child_failure_is_error.
 
 (* death by an unexpected signal before the result was sent surfaces as an error; SIGTERM (terminate()) as result None *)
 Theorem C12_unexpected_signal_is_error : forall g,
@@ -43,12 +53,13 @@ Proof. exact killed_before_result. Qed.
 Print Assumptions C12_unexpected_signal_is_error.
 
 Theorem C12_killed_after_sends_reports_result : forall g,
-  kill g = KillAfter ->
+  kill g = KillAfter -> sendable (how g) = true ->
   parent_future g = parent_future {| how := how g; kill := NoKill; sig := sig g |}.
 Proof. exact killed_after_sends. Qed.
 Print Assumptions C12_killed_after_sends_reports_result.
 
 Theorem C12_thread_matches_process : forall h,
+  sendable h = true ->
   thread_future h = match parent_future {| how := h; kill := NoKill; sig := 15 |} with
                     | FResult v => FResult v | FError e => FError e | Pending => Pending end.
 Proof. exact thread_matches_process. Qed.
